@@ -1555,6 +1555,13 @@ func (e *CoreExtension) filterLast(value interface{}, args ...interface{}) (inte
 			return rv.Index(rv.Len() - 1).Interface(), nil
 		}
 		return nil, nil
+	case reflect.Map:
+		// The last entry of a map is the one with the largest key (see filterFirst)
+		keys := sortedMapKeys(rv)
+		if len(keys) == 0 {
+			return nil, nil
+		}
+		return rv.MapIndex(keys[len(keys)-1]).Interface(), nil
 	}
 
 	return nil, fmt.Errorf("cannot get last element of %T", value)
